@@ -263,7 +263,8 @@ def r01_4_flatten(ctx):
     q.need(loop, f"{f.fq}: label emission not in a loop")
     body = loop[0].body
     i_lab = q.stmt_index(body, lab)
-    i_code = [i for i, s in enumerate(body) if isinstance(s, ast.AugAssign) and u(s.value) == "code"]
+    loopvars = {n.id for n in ast.walk(loop[0].target) if isinstance(n, ast.Name)}
+    i_code = [i for i, s in enumerate(body) if isinstance(s, ast.AugAssign) and isinstance(s.value, ast.Name) and s.value.id in loopvars]
     ctx.check(bool(i_code) and i_lab < i_code[0], "R01.4", "flattenBlocks:label-before-code", "the label of a block must be appended before the block's ops", f"{f.module.rel}:{lab.lineno}", fact={"label_stmt": i_lab, "code_stmt": i_code})
     # labels are memoised per index
     il = [x for x in ctx.model.modules[f.module.name].all_funcs if x.qualname.endswith("flattenBlocks.<locals>.indexToLabel")]
@@ -274,30 +275,46 @@ def r01_4_flatten(ctx):
 
 
 def r01_5_sort(ctx):
-    ctx.rule("R01.5", "sortBlocks: each block is appended once (visited test dominates the append) and the routine's end block is moved to the last position")
+    ctx.rule("R01.5", "sortBlocks returns every block reachable from the start exactly once, the start first and the routine's end block last (evaluated on chains, diamonds, loops, shared successors and graphs where the end block is discovered early); an unreachable end block is refused")
+    from rules.c03 import Blocks
+    from sa.minieval import Raised, Sym, Unknown, run_function
+
     f = ctx.model.find_func("sortBlocks", "pyteal.compiler.sort")
     ctx.analysed(f.fq)
-    apps = [c for c in q.calls_named(f.node, "append") if u(c.func.value) == "order"]
-    q.need(len(apps) == 2, f"{f.fq}: expected two appends to `order`, found {len(apps)}")
-    first, last = sorted(apps, key=lambda c: c.lineno)
-    gs = q.guards(first)
-    ctx.check(any(("in visited" in t and "not in" not in t and not pol) or ("not in visited" in t and pol) for t, pol in gs), "R01.5", "sortBlocks:append-once", f"order.append({u(first.args[0])}) is not dominated by a `visited` test (guards: {gs})", f"{f.module.rel}:{first.lineno}", fact={"guards": gs})
-    adds = [c for c in q.calls_named(f.node, "add") if u(c.func.value) == "visited"]
-    ctx.check(len(adds) == 1 and u(adds[0].args[0]) in [t.split(" in visited")[0].split(" not in visited")[0] for t, _p in gs], "R01.5", "sortBlocks:visited-key", "the key added to `visited` must be the key tested before the append", f.where, fact={"added": [u(a.args[0]) for a in adds]})
-    # successors are pushed for every popped block that is appended
-    ext = [s for s in walk_local(f.node) if isinstance(s, ast.AugAssign) and u(s.target) == "S" and "getOutgoing()" in u(s.value)]
-    ctx.check(len(ext) == 1, "R01.5", "sortBlocks:all-successors", "every successor (getOutgoing()) of an ordered block must be pushed on the work list", f.where, fact={"n": len(ext)})
-    # end block moved last
-    pops = [c for c in q.calls_named(f.node, "pop") if u(c.func.value) == "order"]
-    ctx.check(len(pops) == 1 and u(last.args[0]) == f.params()[1] and pops[0].lineno < last.lineno and not q.nguards(last, ("branch",)), "R01.5", "sortBlocks:end-last", "the end block must be removed from its position and appended unconditionally as the last block", f.where, fact={"pop": [u(p) for p in pops], "append": u(last)})
-    if pops:
-        idx = q.rtext(f.node, pops[0].args[0]) if pops[0].args else ""
-        # the popped index is the one found by the identity scan `block is end`
-        scans = [n for n in walk_local(f.node) if isinstance(n, ast.Compare) and isinstance(n.ops[0], ast.Is) and u(n.comparators[0]) == f.params()[1]]
-        ctx.check(len(scans) >= 1, "R01.5", "sortBlocks:end-by-identity", "the end block must be located by identity (`is`), not structural equality", f.where, fact={"scan": [u(s) for s in scans]})
-    rets = q.returns_of(f.node)
-    ctx.check(len(rets) == 1 and u(rets[0].value) == "order", "R01.5", "sortBlocks:returns-order", "sortBlocks must return the list it built", f.where, fact={})
-    ctx.require_min("R01.5", 5)
+    graphs = {
+        "single block": ({"a": []}, "a", "a"),
+        "chain": ({"a": ["b"], "b": ["c"], "c": []}, "a", "c"),
+        "diamond": ({"c": ["t", "e"], "t": ["j"], "e": ["j"], "j": []}, "c", "j"),
+        "if without else": ({"c": ["t", "j"], "t": ["j"], "j": []}, "c", "j"),
+        "loop": ({"h": ["b", "x"], "b": ["h"], "x": []}, "h", "x"),
+        "end discovered first": ({"c": ["x", "t"], "t": ["u"], "u": ["x"], "x": []}, "c", "x"),
+        "nested": ({"a": ["b", "g"], "b": ["c", "d"], "c": ["e"], "d": ["e"], "e": ["g"], "g": []}, "a", "g"),
+        "early return arm": ({"c": ["r", "n"], "r": [], "n": ["x"], "x": []}, "c", "x"),
+    }
+    for name, (g, start, end) in graphs.items():
+        B = Blocks()
+        blocks = {k: B.block(k, []) for k in g}
+        for k, succ in g.items():
+            B.succ[blocks[k]] = [blocks[x] for x in succ]
+        val, _ = run_function(f.node, {"start": blocks[start], "end": blocks[end]}, lambda e, me: (_ for _ in ()).throw(Unknown()), f.fq)
+        names = [b.name for b in val] if isinstance(val, list) else None
+        reach, st = set(), [start]
+        while st:
+            x = st.pop()
+            if x not in reach:
+                reach.add(x)
+                st += g[x]
+        ok = names is not None and sorted(names) == sorted(reach) and names[0] == start and names[-1] == end
+        ctx.check(ok, "R01.5", f"sortBlocks[{name}]", f"order {names}; expected a permutation of {sorted(reach)} starting with {start} and ending with the end block {end}", f.where, fact={"order": names})
+    B = Blocks()
+    a, z = B.block("a", []), B.block("z", [])
+    try:
+        run_function(f.node, {"start": a, "end": z}, lambda e, me: (_ for _ in ()).throw(Unknown()), f.fq)
+        out = "accepted"
+    except Raised as r:
+        out = "refused" if "TealInternalError" in r.exc_text else r.exc_text[:40]
+    ctx.check(out == "refused", "R01.5", "sortBlocks[end not reachable]", f"an end block that is not in the graph is {out}", f.where, fact={})
+    ctx.require_min("R01.5", 8)
 
 
 def _root_rewrites(fnode):
@@ -414,11 +431,14 @@ def r01_10_routine_epilogue(ctx):
             ok = has_ret and ("ast.type_of() == TealType.none", True) in gs
             ctx.check(ok, "R01.10", "compileSubroutine:implicit-return-none", f"Return() without value must be appended exactly when the body has no return and is of type none (guards {gs})", f"{f.module.rel}:{c.lineno}", fact={"guards": gs})
         else:
-            ok = has_ret and ("ast.type_of() == TealType.none", False) in gs and u(c.args[0]) == "ast"
+            ok = has_ret and ("ast.type_of() == TealType.none", False) in gs and u(c.args[0]) == f.params()[0]
             ctx.check(ok, "R01.10", "compileSubroutine:implicit-return-value", f"Return(ast) must wrap the body exactly when it has no return and produces a value (guards {gs})", f"{f.module.rel}:{c.lineno}", fact={"guards": gs})
     # the Seq keeps the body first, the Return last
     seqs = [c for c in q.calls_named(f.node, "Seq", into_nested=False)]
-    ctx.check(len(seqs) == 1 and u(seqs[0].args[0]).replace(" ", "") == "[ast,ret_expr]", "R01.10", "compileSubroutine:body-then-return", "the implicit Return must follow the body", f.where, fact={"seq": [u(s) for s in seqs]})
+    body_param = f.params()[0]
+    ret_names = {n.targets[0].id for n in walk_local(f.node) if isinstance(n, ast.Assign) and isinstance(n.targets[0], ast.Name) and isinstance(n.value, ast.Call) and q.last_name(n.value) == "Return"}
+    lst = seqs[0].args[0] if len(seqs) == 1 and seqs[0].args and isinstance(seqs[0].args[0], ast.List) else None
+    ctx.check(lst is not None and len(lst.elts) == 2 and u(lst.elts[0]) == body_param and isinstance(lst.elts[1], ast.Name) and lst.elts[1].id in ret_names, "R01.10", "compileSubroutine:body-then-return", "the implicit Return must follow the body", f.where, fact={"seq": [u(s) for s in seqs]})
     # the lowered graph is the (possibly wrapped) ast
     teals = [c for c in q.calls_named(f.node, "__teal__", into_nested=False) if u(c.func.value) == "ast"]
     ctx.check(len(teals) == 1 and all(r.lineno < teals[0].lineno for r in rets), "R01.10", "compileSubroutine:lower-after-wrap", "ast.__teal__ must be called after the implicit Return was added", f.where, fact={})
